@@ -232,9 +232,8 @@ func (t *tokenizer) Next() error {
 			t.unread(c)
 			return t.ok(tokenSymbolOperator, true)
 		}
-		if c2 == ' ' || isIdentifierPart(c2) {
-			t.unread(c)
-		}
+		// Leave the dot in the input for readOperator, whatever follows it.
+		t.unread(c)
 
 		return t.ok(tokenDot, false)
 
